@@ -225,6 +225,11 @@ def simplify(t):
             return ops[int(fld)]
     if t[0] == "deref" and t[1][0] == "ref":
         return t[1][1]
+    # field of a phi of aggregates (`let (a, b) = if c { (x, y) } else { (u, v) };`) -> phi of that field
+    if t[0] == "field" and t[1][0] == "phi" and t[1][1] and all(x[0] == "agg" for x in t[1][1]):
+        alts = tuple(simplify(("field", x, t[2])) for x in t[1][1])
+        if all(not (a[0] == "field" and a[1][0] == "agg") for a in alts):
+            return ("phi", alts)
     return t
 
 
@@ -581,8 +586,10 @@ def closures_in_term(t, out=None):
     return out
 
 
-def mentions_deep(F, t, needle):
-    """mentions(), also looking at the calls made by closure bodies constructed inside the term"""
+def mentions_deep(F, t, needle, _depth=0):
+    """mentions(), also looking at the calls made by closure bodies constructed inside the term and by the private,
+    non-anchor local helpers the term calls (a value obtained through `self.block_number_for_read(h)?` still *comes from*
+    whatever that helper calls)"""
     if mentions(t, needle):
         return True
     for cid in closures_in_term(t):
@@ -592,6 +599,14 @@ def mentions_deep(F, t, needle):
         for c in g.calls():
             if needle in (c.target_path or "") or needle == (c.method or ""):
                 return True
+    if _depth < 2:
+        from facts import is_private_helper
+        for x in calls_in(t):
+            for g in F.by_name.get(x[1], []):
+                if g.blocks and is_private_helper(g):
+                    for c in g.calls():
+                        if needle in (c.target_path or "") or needle == (c.method or ""):
+                            return True
     return False
 
 
